@@ -301,8 +301,9 @@ def store_stage_case(ctx, env: Env, wf):
         "status": lambda: setattr(stage, "status", rng.choice(list(WorkflowStatus))),
         "context": lambda: stage.context.update({gen_str(rng) + "n": gen_json(rng)}),
         "outputs": lambda: stage.outputs.update({gen_str(rng) + "n": gen_json(rng)}),
-        "start_time": lambda: setattr(stage, "start_time", rng.randint(0, 2 ** 40)),
-        "end_time": lambda: setattr(stage, "end_time", rng.randint(0, 2 ** 40)),
+        # value -> None as well (what a jump re-arm / lost mutex claim writes): a cleared timestamp must read back cleared
+        "start_time": lambda: setattr(stage, "start_time", None if rng.random() < 0.4 else rng.randint(0, 2 ** 40)),
+        "end_time": lambda: setattr(stage, "end_time", None if rng.random() < 0.4 else rng.randint(0, 2 ** 40)),
         "name": lambda: setattr(stage, "name", stage.name + "-renamed"),
         "join_type": lambda: setattr(stage, "join_type", rng.choice(list(JoinType))),
         "join_threshold": lambda: setattr(stage, "join_threshold", stage.join_threshold + 1),
